@@ -30,6 +30,54 @@ Theorem C13_every_sample_has_origin :
                    x = sample_of O of_int fzero c (group_source g) m ls.
 Proof. exact @in_collect. Qed.
 
+(* ---- representability as a decidable predicate of the store ----
+   [representable c m ls] (Export/Prom.v) spells out client_golang's rules:
+   metric name [a-zA-Z_:][a-zA-Z0-9_:]* after hyphen replacement, label names
+   [a-zA-Z_][a-zA-Z0-9_]* not starting with __, no duplicate label name (a key
+   named prog while the prog label is on), every label value valid UTF-8.
+   [repr_consistent c s]: the oracle bits of the store are these rules' verdicts -
+   checked by the correspondence for every label set of every generated store
+   against prometheus.NewDesc/NewConstMetric.  Then the oracle disappears from
+   the statements: *)
+Theorem C13_one_sample_each_decidable :
+  forall (F : Type) (O : fops F) (of_int : Z -> F) (fzero : F) (c : cfg) (s : list (list (metric F))) g m ls,
+    repr_consistent c s -> no_dup_series O of_int fzero c s ->
+    In g s -> In m g -> m_kind m <> KText -> In ls (m_lvs m) -> representable c m ls = true ->
+    let x := sample_of O of_int fzero c (group_source g) m ls in
+    In x (collect O of_int fzero c s) /\
+    forall y, In y (collect O of_int fzero c s) ->
+              s_name y = no_hyphens (m_name m) -> s_labels y = labels_of c m ls -> y = x.
+Proof. exact @one_sample_each_concrete. Qed.
+
+Theorem C13_every_sample_has_origin_decidable :
+  forall (F : Type) (O : fops F) (of_int : Z -> F) (fzero : F) (c : cfg) (s : list (list (metric F))) x,
+    repr_consistent c s ->
+    (In x (collect O of_int fzero c s) <->
+     exists g m ls, In g s /\ In m g /\ m_kind m <> KText /\ In ls (m_lvs m) /\ representable c m ls = true /\
+                    x = sample_of O of_int fzero c (group_source g) m ls).
+Proof. exact @in_collect_concrete. Qed.
+
+(* every store becomes consistent by recomputing its bits from the rules, and a
+   consistent store is left unchanged: the hypothesis is not a restriction *)
+Theorem C13_concretize_consistent :
+  forall (F : Type) (c : cfg) (s : list (list (metric F))), repr_consistent c (concretize c s).
+Proof. exact @concretize_consistent. Qed.
+Theorem C13_concretize_id :
+  forall (F : Type) (c : cfg) (s : list (list (metric F))), repr_consistent c s -> concretize c s = s.
+Proof. exact @concretize_id. Qed.
+
+(* the rules on the names the design mentions *)
+Example C13_name_rules :
+  valid_metric_name (no_hyphens [98; 97; 114; 45; 98]) = true /\        (* bar-b -> bar_b *)
+  valid_metric_name [98; 97; 114; 45; 98] = false /\                    (* bar-b itself *)
+  valid_metric_name [110; 115; 58; 115] = true /\                       (* ns:s *)
+  valid_metric_name [57; 108] = false /\ valid_metric_name [] = false /\ (* 9l, empty *)
+  valid_label_name [110; 115; 58; 115] = false /\                       (* ns:s as a label *)
+  valid_label_name [95; 95; 114] = false /\ valid_label_name [95; 111] = true /\  (* __r, _o *)
+  valid_utf8 [99; 97; 102; 195; 169] = true /\ valid_utf8 [98; 97; 100; 255] = false /\
+  valid_utf8 [192; 175] = false /\ valid_utf8 [237; 160; 128] = false /\ valid_utf8 [240; 159; 152; 128] = true.
+Proof. repeat split. Qed.
+
 (* the sample of a label set: name, labels, type, value *)
 Theorem C13_sample_fields :
   forall (F : Type) (O : fops F) (of_int : Z -> F) (fzero : F) c src (m : metric F) ls,
@@ -174,6 +222,12 @@ Proof.
   unfold no_dup_series. cbn.
   repeat constructor; cbn; intuition discriminate.
 Qed.
+(* on the witness store the oracle bits are the rules' verdicts *)
+Example C13_witness_consistent : repr_consistent w_cfg w_store.
+Proof.
+  intros g m ls [<-|[<-|[]]] [<-|[]] Hl; cbn in Hl; intuition (subst; reflexivity).
+Qed.
+
 Example C13_witness_exports :
   map (fun x => (s_name x, s_typ x, s_val x, s_ts x)) (collect w_ops w_of_int 0 w_cfg w_store) =
   [ ([102; 111; 111], PCounter, SV 1, Some 5%Z); ([102; 111; 111], PCounter, SV 3, Some 5%Z);
@@ -182,6 +236,10 @@ Proof. reflexivity. Qed.
 
 Print Assumptions C13_one_sample_each.
 Print Assumptions C13_every_sample_has_origin.
+Print Assumptions C13_one_sample_each_decidable.
+Print Assumptions C13_every_sample_has_origin_decidable.
+Print Assumptions C13_concretize_consistent.
+Print Assumptions C13_concretize_id.
 Print Assumptions C13_sample_fields.
 Print Assumptions C13_type_by_kind.
 Print Assumptions C13_hist_buckets_are_the_datums.
